@@ -198,7 +198,9 @@ def _harness_part(mode, cases_path, trace_path, args, deadline):
             f.writelines(lines)
         try:
             with open(part_c) as fi:
+                # (the library reports every metadata value it cannot read as a triple on stderr)
                 rc = subprocess.run([HARNESS_BIN, mode, part_t] + (args or []), stdin=fi, stdout=subprocess.DEVNULL,
+                                    stderr=subprocess.DEVNULL if mode == "triple" else None,
                                     timeout=max(1, deadline - time.time())).returncode
         except subprocess.TimeoutExpired:
             return "harness timeout"
@@ -243,8 +245,8 @@ def run_harness(mode, cases_path, trace_path, timeout=3000, args=None):
     with open(cases_path) as fi:
         n = sum(1 for _ in fi)
     k = max(1, min(NCPU, n // 400))
-    if k == 1 or mode not in ("cases", "fault", "meta"):
-        if mode in ("cases", "fault", "meta"):
+    if k == 1 or mode not in ("cases", "fault", "meta", "triple"):
+        if mode in ("cases", "fault", "meta", "triple"):
             bad = _harness_part(mode, cases_path, trace_path, args, deadline)
             if bad:
                 raise ToolError(bad)
